@@ -22,6 +22,9 @@ pub enum Content {
     Alphabet(u8),
     /// prefix of /repo/tests/files/range-coder-edge-case (repeated if needed)
     EdgeFile,
+    /// 2^32 + len copies of one byte, never materialised (xz_compress only; the
+    /// file's index, footer and total length are checked against the format's arithmetic)
+    HugeConst(u8),
 }
 
 #[derive(Clone, Debug, PartialEq, Eq, Hash, Serialize, Deserialize)]
@@ -50,6 +53,7 @@ impl DataSpec {
             Content::Alphabet(k) => (0..n)
                 .map(|_| b'a' + ((next() >> 20) % (k.max(2) as u64)) as u8)
                 .collect(),
+            Content::HugeConst(_) => vec![],
             Content::EdgeFile => {
                 let f = std::fs::read("/repo/tests/files/range-coder-edge-case")
                     .unwrap_or_else(|_| vec![0xFF; 1000]);
@@ -146,7 +150,7 @@ impl Property for C04 {
         a.clone()
     }
     fn rule(&self) -> String {
-        "proptest generates byte strings (length classes 0,1,2,..., 65535/65536/65537, k*64KiB-1/+0/+1, random up to 300 KiB (thorough 600 KiB); contents uniform / constant 0x00 / constant 0xFF / runs with a flip / 2-3 symbol alphabets / the repository's range-coder-edge-case file) x encoder {lzma WriteToHeader(None) | WriteToHeader(Some(len)) | SkipWritingToHeader, lzma2, xz} x input reader fragmentation {slice, BufReader(cap 1..40, short reads), 1-byte BufRead, random BufRead}. Oracle: every matching lzma-rs decode option returns the input; the independent reference decoder (LZMA with explicit end rules / strict LZMA2 / strict XZ parser) returns the input and consumes the stream exactly; liblzma (alone / raw LZMA2 / stream decoder) returns the input; for inputs up to 70 000 bytes the same call into a sink that accepts only part of each write delivers the same bytes. Non-trivial = input length >= 2; distinct = SipHash of (data spec, encoder, reader).".into()
+        "proptest generates byte strings (length classes 0,1,2,..., 65535/65536/65537, k*64KiB-1/+0/+1, random up to 300 KiB (thorough 600 KiB); contents uniform / constant 0x00 / constant 0xFF / runs with a flip / 2-3 symbol alphabets / the repository's range-coder-edge-case file) x encoder {lzma WriteToHeader(None) | WriteToHeader(Some(len)) | SkipWritingToHeader, lzma2, xz} x input reader fragmentation {slice, BufReader(cap 1..40, short reads), 1-byte BufRead, random BufRead}. Oracle: every matching lzma-rs decode option returns the input; the independent reference decoder (LZMA with explicit end rules / strict LZMA2 / strict XZ parser) returns the input and consumes the stream exactly; liblzma (alone / raw LZMA2 / stream decoder) returns the input and a 13-byte .lzma header is one that xz's format auto-detection recognises; for inputs up to 70 000 bytes the same call into a sink that accepts only part of each write delivers the same bytes. Non-trivial = input length >= 2; distinct = SipHash of (data spec, encoder, reader).".into()
     }
     fn required_classes(&self, tier: Tier) -> Vec<(&'static str, u64)> {
         let m = tier.pick(1, 10);
@@ -168,7 +172,27 @@ impl Property for C04 {
         ]
     }
 
+    fn fixed_cases(&self, tier: Tier) -> Vec<Case> {
+        // an input beyond 4 GiB (sizes and counters wider than 32 bits)
+        let mut v = vec![Case {
+            data: DataSpec { content: Content::HugeConst(0x5A), len: 12_345, seed: 0 },
+            codec: Codec::Xz,
+            reader: ReaderKind::Slice,
+        }];
+        if tier.pick(0, 1) == 1 {
+            v.push(Case {
+                data: DataSpec { content: Content::HugeConst(0), len: 65_536 * 3, seed: 0 },
+                codec: Codec::Xz,
+                reader: ReaderKind::Slice,
+            });
+        }
+        v
+    }
+
     fn judge(&self, c: &mut Case, st: &mut LocalStats) -> Judgement {
+        if let Content::HugeConst(b) = c.data.content {
+            return judge_huge(b, (1u64 << 32) + c.data.len as u64, st);
+        }
         let data = c.data.bytes();
         let n = data.len() as u64;
         st.class(match data.len() {
@@ -257,6 +281,15 @@ impl Property for C04 {
                         }
                     }
                     Err(e) => return bad("nonconformant", format!("reference decoder rejects encoder output: {:?}", e)),
+                }
+                #[cfg(feature = "liblzma")]
+                if sel != CompSel::Skip && !crate::ffi_liblzma::alone_header_ok(&z) {
+                    // xz and liblzma's auto-detecting decoder recognise a .lzma file only if the
+                    // dictionary size is 2^n or 2^n + 2^(n-1) and a known size is below 256 GiB
+                    return bad(
+                        "nonconformant",
+                        format!("header not recognised as .lzma by xz / liblzma's format auto-detection: {}", hex_prefix(&z, 13)),
+                    );
                 }
                 #[cfg(feature = "liblzma")]
                 if sel != CompSel::Skip {
@@ -449,6 +482,65 @@ impl Property for C04 {
         }
         Judgement::Pass
     }
+}
+
+/// xz_compress of n > 4 GiB bytes: total length, index record and footer must
+/// follow from the format's arithmetic (the payload itself is not kept).
+fn judge_huge(byte: u8, n: u64, st: &mut LocalStats) -> Judgement {
+    use crate::refmodel::crc::crc32;
+    st.class("len:> 4 GiB (xz index/footer arithmetic only)");
+    st.eval();
+    let r = sut::xz_compress_huge(byte, n);
+    let bad = |msg: String| Judgement::violation("nonconformant".to_string(), format!("xz_compress of {} bytes of {:#04x}: {}", n, byte, msg));
+    if !r.verdict.is_ok() {
+        return Judgement::violation("compress-failed".to_string(), format!("xz_compress of {} bytes: {}", n, r.verdict.brief()));
+    }
+    // lzma-rs stores 64 KiB uncompressed chunks: control + 2 size bytes + data each, then the end byte
+    let chunks = (n + 65535) / 65536;
+    let lzma2_len = n + 3 * chunks + 1;
+    let unpadded = 12 + lzma2_len; // block header incl. CRC32 + data, check None
+    let bpad = (4 - unpadded % 4) % 4;
+    let vli = |mut v: u64| {
+        let mut o = Vec::new();
+        while v >= 0x80 {
+            o.push((v as u8) | 0x80);
+            v >>= 7;
+        }
+        o.push(v as u8);
+        o
+    };
+    let mut index = vec![0u8];
+    index.extend(vli(1));
+    index.extend(vli(unpadded));
+    index.extend(vli(n));
+    while index.len() % 4 != 0 {
+        index.push(0);
+    }
+    let c = crc32(&index);
+    index.extend_from_slice(&c.to_le_bytes());
+    let mut footer_body = Vec::new();
+    footer_body.extend_from_slice(&((index.len() / 4 - 1) as u32).to_le_bytes());
+    footer_body.extend_from_slice(&[0, 0]);
+    let mut footer = crc32(&footer_body).to_le_bytes().to_vec();
+    footer.extend_from_slice(&footer_body);
+    footer.extend_from_slice(b"YZ");
+    let want_total = 12 + unpadded + bpad + index.len() as u64 + 12;
+    let mut want_tail: Vec<u8> = vec![0; bpad as usize];
+    want_tail.extend_from_slice(&index);
+    want_tail.extend_from_slice(&footer);
+    if r.total != want_total {
+        return bad(format!("file is {} bytes long, the format's arithmetic gives {}", r.total, want_total));
+    }
+    if r.tail.len() < want_tail.len() || r.tail[r.tail.len() - want_tail.len()..] != want_tail[..] {
+        return bad(format!(
+            "block padding + index + footer are {} but must be {} (unpadded size {}, uncompressed size {})",
+            hex(&r.tail[r.tail.len().saturating_sub(want_tail.len())..]),
+            hex(&want_tail),
+            unpadded,
+            n
+        ));
+    }
+    Judgement::Pass
 }
 
 fn has_ff_run(z: &[u8]) -> bool {
